@@ -95,7 +95,8 @@ func gen(r *vu.Rng, i int) []string {
 		s := vu.Hex(b)
 		return []string{"enc " + s, "encspec " + s, "len " + s}
 	case 4, 5, 6, 7:
-		return []string{"dec " + vu.Hex(genEncoded(r))}
+		v := vu.Hex(genEncoded(r))
+		return []string{"dec " + v, "decspec " + v}
 	default:
 		s := genString(r)
 		v := genEncoded(r)
@@ -103,7 +104,7 @@ func gen(r *vu.Rng, i int) []string {
 			v = hpack.AppendHuffmanString(nil, string(s))
 		}
 		m := r.Intn(len(s) + 3)
-		return []string{fmt.Sprintf("decmax %d %s", m, vu.Hex(v))}
+		return []string{fmt.Sprintf("decmax %d %s", m, vu.Hex(v)), fmt.Sprintf("decmaxspec %d %s", m, vu.Hex(v))}
 	}
 }
 
@@ -136,7 +137,7 @@ func exec(ops []string, o *vu.Out) {
 		case t[0] == "len" && len(t) == 2:
 			s := vu.MustHex(t[1])
 			o.Op(op, vu.Catch(func() string { return fmt.Sprintf("ok %d", hpack.HuffmanEncodeLength(string(s))) }))
-		case t[0] == "dec" && len(t) == 2:
+		case (t[0] == "dec" || t[0] == "decspec") && len(t) == 2:
 			v := vu.MustHex(t[1])
 			res := vu.Catch(func() string {
 				var w bytes.Buffer
@@ -150,9 +151,11 @@ func exec(ops []string, o *vu.Out) {
 				return "ok " + vu.Hex(w.Bytes())
 			})
 			o.Op(op, res)
-			o.Stat("dec:" + strings.Fields(res)[0])
-			oracleDecode(v, res, o)
-		case t[0] == "decmax" && len(t) == 3:
+			if t[0] == "dec" {
+				o.Stat("dec:" + strings.Fields(res)[0])
+				oracleDecode(v, res, o)
+			}
+		case (t[0] == "decmax" || t[0] == "decmaxspec") && len(t) == 3:
 			m := vu.Atoi(t[1])
 			v := vu.MustHex(t[2])
 			res := vu.Catch(func() string {
